@@ -127,6 +127,8 @@ def build(g, kw=False):
                 callee = sub[2] if sub[0] == "scan" else sub     # a Scan forwards keyword arguments to its callee
                 if callee[0] == "fn" and len(callee) > 2:
                     extra["kwv"] = jnp.float32(callee[2]["kw"])
+                if sub[0] == "cond" and all(b[0] == "fn" and len(b) > 2 for b in sub[1:3]):
+                    extra["kwv"] = jnp.float32(sub[1][2]["kw"])       # a Cond forwards keyword arguments to both branches
                 if kw_site(a, sub, argexprs):
                     r = build(sub, kw=True)(*vals[:-1], kwlast=vals[-1], **extra) @ name(a)
                 else:
@@ -424,6 +426,12 @@ class ProgGen:
             return f, [self.sexpr(env, 2) for _ in range(m)], "S"
         if k == "cond":
             g, m = self.cond(depth)
+            if g[1][0] == "fn" and g[2][0] == "fn" and rng.random() < 0.4:
+                # the call site passes one keyword argument that both branches declare (with a default)
+                c = rng.choice([-2, -1, 1, 2, 3])
+                b1, b2 = self.with_kw(g[1], c), self.with_kw(g[2], c)
+                if len(b1) > 2 and len(b2) > 2:
+                    g = ["cond", b1, b2]
             chk = ["gt", self.sexpr(env, 1), self.sexpr(env, 1)]
             return g, [chk] + [self.sexpr(env, 2) for _ in range(m)], "S"
         if k == "vmap":
@@ -537,10 +545,11 @@ class ProgGen:
             callee = self.fn(["S"] * m, depth)
         return ["vmap", n, axes, callee, given], n, axes
 
-    def with_kw(self, fn):
+    def with_kw(self, fn, c=None):
         """give the function a keyword parameter (call sites pass a literal != the default 7) that shifts the
         parameter of its first distribution site, or its return value"""
-        c = self.rng.choice([-2, -1, 1, 2, 3])
+        if c is None:
+            c = self.rng.choice([-2, -1, 1, 2, 3])
         p = fn[1]
         if p[0] == "call" and p[2][0] == "dist" and len(p[3]) == 2:
             p = ["call", p[1], p[2], [p[3][0], ["add", p[3][1], ["kwv"]]], p[4]]
